@@ -65,7 +65,8 @@ always_truthy(PACK, "pack objects define neither __bool__ nor __len__")
 attr_sort("Pack.name", STR)
 MissingOf = ufunc("MissingOf", ANY, Seq(ANY))   # compression parents a versioned file still lacks
 DataIns = ufunc("DataIns", PACK, BOOL)
-ghost(allocated=SetS(PACK))
+ghost(allocated=SetS(PACK),
+      attached=SetS(PACK))     # packs whose indices are part of the in-memory combined indices: their keys are visible through this repository object
 ghost(published=BOOL,          # something of this write group was made visible: a pack finished+allocated, pack-names saved, autopack run
       aborted=SetS(PACK), finished=SetS(PACK))
 RPC = cls("RepositoryPackCollection", fields={"_new_pack": Opt(PACK), "_resumed_packs": Seq(PACK), "_names": MapS(STR, ANY), "repo": ANY})
@@ -75,7 +76,9 @@ assumed(rx(r"versioned_file\.get_missing_compression_parent_keys"), pure=True, r
         raises={"Exception": None})
 assumed("self._check_new_inventories", pure=True, returns=lambda c: Problems(), raises={"Exception": None},
         note="GCRepositoryPackCollection._check_new_inventories: reads indices only")
-assumed("self._remove_pack_indices", result=NONE, raises={"Exception": "unchanged"}, note="detaches the pack's indices from the in-memory combined indices")
+assumed("self._remove_pack_indices", result=NONE, modifies=["g.attached"],
+        ensures=lambda c: c.g.attached == (c.old.g.attached - mkset(SetS(PACK), c.args[0].val)),
+        raises={"Exception": "unchanged"}, note="detaches the pack's indices from the in-memory combined indices (its keys stop being visible)")
 assumed("self._new_pack.data_inserted", pure=True, no_raise=True, returns=lambda c: DataIns(c.self._new_pack.val))
 assumed("pack.name", pure=True)
 assumed("self._new_pack.finish", result=NONE, modifies=["g.finished"],
@@ -133,6 +136,8 @@ target(C + "_abort_write_group",
        requires=lambda c: Not(c.g.published),
        loops={1: loop(r"for resumed_pack in self\._resumed_packs", prefix="seen",
                       inv=lambda c: And(Not(c.g.published), c.self._names == c.old.self._names, c.self._new_pack.is_none,
+                                        Implies(Not(c.old.self._new_pack.is_none), Not(In(c.old.self._new_pack.val, c.g.attached))),
+                                        Implies(Not(NoX0(c.seen)), Not(In(X0(), c.g.attached))),
                                         c.self._resumed_packs == c.old.self._resumed_packs,
                                         Implies(Not(c.old.self._new_pack.is_none), In(c.old.self._new_pack.val, c.g.aborted)),
                                         Implies(Not(NoX0(c.seen)), In(X0(), c.g.aborted))))},
@@ -141,11 +146,19 @@ target(C + "_abort_write_group",
                 "every_open_pack_aborted": lambda c: And(
                     Implies(Not(c.old.self._new_pack.is_none), In(c.old.self._new_pack.val, c.g.aborted)),
                     Implies(Not(NoX0(c.old.self._resumed_packs)), In(X0(), c.g.aborted))),
-                "no_pack_left_open": lambda c: And(c.self._new_pack.is_none, Len(c.self._resumed_packs) == 0)},
+                "no_pack_left_open": lambda c: And(c.self._new_pack.is_none, Len(c.self._resumed_packs) == 0),
+                "aborted_data_is_no_longer_visible": lambda c: And(
+                    Implies(Not(c.old.self._new_pack.is_none), Not(In(c.old.self._new_pack.val, c.g.attached))),
+                    Implies(Not(NoX0(c.old.self._resumed_packs)), Not(In(X0(), c.g.attached))))},
        raises={"Exception": {"nothing_published": lambda c: And(Not(c.g.published), c.self._names == c.old.self._names),
-                             "new_pack_forgotten": lambda c: c.self._new_pack.is_none}},
+                             "new_pack_forgotten": lambda c: c.self._new_pack.is_none,
+                             # also when aborting the pack fails (the error may be suppressed by the caller): its keys must not stay visible
+                             "new_pack_no_longer_visible_even_if_its_abort_failed": lambda c: Implies(
+                                 And(Not(c.old.self._new_pack.is_none),
+                                     lift(c.calls("self._remove_pack_indices", failed=True) == 0)),
+                                 Not(In(c.old.self._new_pack.val, c.g.attached)))}},
        canary=lambda c: Not(c.self._new_pack.is_none),
-       equivalent_mutants={r"_remove_pack_indices|drop:Expr.*\| stack\.callback\($": "in-memory index bookkeeping (callbacks that detach indices)"})
+       equivalent_mutants={})
 
 assumed("self._remove_resumed_pack_indices", result=NONE, modifies=["self._resumed_packs"], raises={"Exception": "unchanged"})
 target(C + "_suspend_write_group", locals=dict(tokens=Seq(STR)),
